@@ -300,7 +300,7 @@ def run(ctx, chk):
     # e.g. two slots with the same name after remove + rename): once the slot loop of Regions::fill has started, no
     # error exit is reachable
     fill = O.body("rawdb::regions::Regions::fill")
-    fbs = O.need_sites(fill, M(r"rawdb::region_metadata::RegionMetadata::from_bytes"), 1)
+    fbs = O.need_sites(fill, M(r"rawdb::region_metadata::RegionMetadata::from_bytes", reach=True), 1)
     ek = O.exit_kinds(fill)
     errs = [b for b, k in ek.items() if k == "err" and any(O.can_reach(fill, f, [b]) for f in fbs)]
     chk.oblige("B05.8 Regions::fill: no error exit is reachable once slots are being decoded [%d error exits before the loop]"
